@@ -129,12 +129,12 @@ def execute(version, hist_abs, seed, thr=None, interleave=None, policy=None, chu
     return run, {'tp': prof.ge(107), 'ev': ev, 'version': version}, prof
 
 
-def pending_write_scenario(version, seed, n_pending):
+def pending_write_scenario(version, seed, n_pending, policy=None):
     """The server sends its disconnect packet and closes while the client still has packets queued: the failing write
     is not an error (the disconnect packet explains it): clean exit, exit callback once, no error reported."""
     from minecraft.networking.packets import Packet, serverbound
     prof = Profile(version)
-    run = Run(seed=seed, chunk='random')
+    run = Run(policy=policy, seed=seed, chunk='random')
     holder = {}
 
     def factory(idx, sess):
@@ -284,9 +284,13 @@ def run(chk):
     chk.sample({'long_history_excerpt': all_traces[-1]['ev'][:10], 'version': all_traces[-1]['version']})
 
     # ---- 3b. the disconnect packet arrives while writes are pending (they fail: not an error)
-    for j in range(12 if quick else 120):
+    from .. import vsched
+    for j in range(120 if quick else 1500):
         version = rng.choice(sup)
-        run_, tr = pending_write_scenario(version, chk.seed * 4099 + j, n_pending=[1, 2, 5][j % 3])
+        # random schedules: the failing write may happen in the write phase (deferred, then cancelled by the disconnect
+        # packet read afterwards) or in disconnect()'s own flush
+        pol = vsched.RandomPolicy(chk.seed * 8191 + j, switch_prob=[0.2, 0.5, 0.8][j % 3]) if j % 4 else None
+        run_, tr = pending_write_scenario(version, chk.seed * 4099 + j, n_pending=[1, 2, 5][j % 3], policy=pol)
         chk.traces += 1
         chk.case(('pending', j))
         if run_.outcome != 'done' or run_.errors or run_.exits != 1:
